@@ -1039,7 +1039,12 @@ func dsRebuildCmd(a Args) {
 			return
 		}
 		if thorough {
+			// every site of a small description; a sample of a large one (all work items are held in memory, and
+			// a plugin schema has thousands of sites: all of them for every description needs tens of gigabytes)
 			singles = nSites
+			if singles > 120 {
+				singles = 120
+			}
 			doubles *= 10
 		}
 		for _, si := range pickSites(singles) {
